@@ -44,6 +44,14 @@ inductive HeapStep (ops : HeapOps H) : H → H → Prop
       that the bytecode verifier accepts. This is the fact the `bytecode-verifier` stream checks on
       every lambda object of the real heap: closures are made by CLOSURE from `compile_lambda`
       output; bare lambda pointers come from `compile_runnable`'s entry code and from `eval`.
+    * `Val` and the `*_val` laws — **what a value is**, and that the heap hands out values where the
+      machine puts the result on the stack or into `acc`: an immediate the verifier accepts as a value, the
+      address `put` / `maybe_put` / the continuation and closure constructors return, the vector VPUSH leaves
+      in `acc`, a global slot, a lexical-environment slot (read through at most one `LexicalEnvPtr`
+      indirection, `load_operand`). For the concrete heap `Val = IsValue` and the read laws hold of the
+      *guarded* reads of `vops` (`Lemmas/ConcreteLawsVal.lean`); for the toy heaps `Val = fun _ => True`.
+    * `info_code` — a lambda's formals cover the argument cells its code addresses
+      (`argNeed bc ≤ args.len()`, compared on every real lambda by the `bytecode-verifier` stream).
     * `cont_wf`, `newCont_inv`, `newCont_code` — the only continuation objects in the heap are those
       `call/cc` created (`Continuation` has no other constructor call): every continuation CALL/TCALL
       can find is a snapshot of a WF state, *provided* `call/cc` only ever stores snapshots of WF
@@ -52,6 +60,18 @@ structure CodeLaws (ops : HeapOps H) where
   e : Nat
   code : H → Nat → Option (List VCell)
   HInv : H → Prop
+  Val : VCell → Prop
+  val_imm : ∀ v, Verify.isVal v = true → Val v
+  put_val : ∀ h v, Val (ops.put h v).2
+  maybePut_val : ∀ h v, Val (ops.maybePut h v).2
+  newCont_val : ∀ h c, Val (ops.newCont h c).2
+  makeClosure_val : ∀ {h h' lam ep bp st c}, ops.makeClosure h lam ep bp st = .ok (h', c) → Val c
+  vectorPush_val : ∀ {h h' vec v}, ops.vectorPush h vec v = .ok h' → Val vec
+  globGet_val : ∀ h n, Val (ops.globGet h n)
+  envGet_val : ∀ {h e k v}, ops.envGet h e k = some v → (∀ e' k', v ≠ .lexEnvPtr e' k') → Val v
+  envGet_val2 : ∀ {h e k e' k' w}, ops.envGet h e k = some (.lexEnvPtr e' k') → ops.envGet h e' k' = some w → Val w
+  info_code : ∀ {h l bc info}, HInv h → code h l = some bc → ops.lambdaInfo h l = some info →
+    argNeed bc ≤ info.argc
   fetch_code : ∀ {h l bc}, HInv h → code h l = some bc → ∀ o, ops.fetch h l o = bc[o]?
   step_inv : ∀ {h h'}, HInv h → HeapStep ops h h' → HInv h'
   step_code : ∀ {h h' l bc}, HInv h → HeapStep ops h h' → code h l = some bc → code h' l = some bc
@@ -59,8 +79,8 @@ structure CodeLaws (ops : HeapOps H) where
     ∃ t, tyOf (code h) lam = some t ∧ t.entry = false
   callee_lambda : ∀ {h lam}, HInv h → ops.callee h (.ptr lam) = .lambda →
     ∃ t, tyOf (code h) lam = some t ∧ t.entry = false
-  cont_wf : ∀ {h v c}, HInv h → ops.callee h v = .continuation c → ∃ K, ContWF (tyOf (code h)) e c K
-  newCont_inv : ∀ {h c K}, HInv h → ContWF (tyOf (code h)) e c K → HInv (ops.newCont h c).1
+  cont_wf : ∀ {h v c}, HInv h → ops.callee h v = .continuation c → ∃ K, ContWF Val (tyOf (code h)) e c K
+  newCont_inv : ∀ {h c K}, HInv h → ContWF Val (tyOf (code h)) e c K → HInv (ops.newCont h c).1
   newCont_code : ∀ {h c l bc}, HInv h → code h l = some bc → code (ops.newCont h c).1 l = some bc
 
 variable {ops : HeapOps H}
@@ -81,12 +101,33 @@ theorem Ext.step {cl : CodeLaws ops} {h h' : H} (hi : cl.HInv h) (hs : HeapStep 
 theorem Ext.ty {cl : CodeLaws ops} {h h' : H} (a : Ext cl h h') :
     ∀ l t, tyOf (cl.code h) l = some t → tyOf (cl.code h') l = some t := tyOf_mono a.code
 
-/-- WF-stack of a machine state under the heap laws -/
+/-- the lambda whose formals ENTER compares the argument count with: the callee in `acc` -/
+def enterLam (ops : HeapOps H) (h : H) (acc : VCell) : Option Nat :=
+  match ops.callee h acc with
+  | .closure lam _ => some lam
+  | .lambda => (match acc with | .ptr p => some p | _ => none)
+  | _ => none
+
+/-- WF-stack of a machine state under the heap laws: the frame chain (`wf`), `acc` holds a value, and — in
+    a procedure prologue — the argument count CALL / TCALL / VARARG left covers the argument cells the code
+    addresses, or ENTER is about to compare it with the formals of *this* code object (`acc` still holds
+    the callee CALL / TCALL dispatched on) -/
 structure WFS (cl : CodeLaws ops) (s : St H) (K : List FDesc) : Prop where
   inv : cl.HInv s.heap
-  wf : WF (tyOf (cl.code s.heap)) cl.e s K
+  wf : WF cl.Val (tyOf (cl.code s.heap)) cl.e s K
+  acc : cl.Val s.acc
+  pre : ∀ t n, tyOf (cl.code s.heap) s.ipL = some t → stateAt t.tm s.ipO = some .pre →
+    s.stack.cellAt (s.stack.sp - 2) = .argc n →
+    argNeed t.bc ≤ n ∨ enterLam ops s.heap s.acc = some s.ipL
 
 /-! ## inversion of the small operations -/
+
+theorem bind_inv' {α β : Type} {x : Outcome α} {f : α → Outcome β} {r : β} (h : (x >>= f) = .ok r) :
+    ∃ a, x = .ok a ∧ f a = .ok r := by
+  cases x with
+  | ok a => exact ⟨a, rfl, h⟩
+  | err e => cases h
+  | panic m => cases h
 
 theorem pop_ok {st st' : Stack} {v : VCell} (h : st.pop = .ok (v, st')) :
     st'.sp + 1 = st.sp ∧ st'.cells = st.cells ∧ v = st.cellAt st.sp := by
@@ -216,6 +257,36 @@ theorem storeOperand_ok {cl : CodeLaws ops} {s s1 : St H} {v : VCell} (hi : cl.H
   | err e => rw [hr] at h; cases h
   | panic m => rw [hr] at h; cases h
 
+/-- what a store does to `acc` -/
+theorem storeOperand_acc {s s1 : St H} {v : VCell} (h : storeOperand ops s v = .ok s1) :
+    s1.acc = v ∨ s1.acc = s.acc := by
+  unfold storeOperand at h
+  simp only [Bind.bind] at h
+  cases hr : readOperand ops s with
+  | ok r =>
+    obtain ⟨opnd, s2⟩ := r
+    rw [hr] at h
+    simp only at h
+    obtain ⟨hf, e⟩ := readOperand_ok hr
+    subst e
+    split at h
+    · cases h; exact .inl rfl
+    · cases h; exact .inr rfl
+    · obtain ⟨st, _, h⟩ := bind_inv' h
+      cases h; exact .inr rfl
+    · cases h; exact .inr rfl
+    · split at h
+      · cases h
+      · split at h
+        · cases h
+        · cases h; exact .inr rfl
+      · split at h
+        · cases h
+        · cases h; exact .inr rfl
+    · cases h
+  | err e => rw [hr] at h; cases h
+  | panic m => rw [hr] at h; cases h
+
 theorem get_ok {st : Stack} {i : Nat} {v : VCell} (h : st.get i = .ok v) :
     v = st.cellAt i ∧ i < st.cells.length := by
   unfold Stack.get at h
@@ -227,6 +298,61 @@ theorem get_ok {st : Stack} {i : Nat} {v : VCell} (h : st.get i = .ok v) :
     · exact hl
     · rw [List.getElem?_eq_none (by omega)] at hv; cases hv
   · cases h
+
+/-- **what MOV / PUSH load is a value**: `acc`, a global slot, an environment slot (`*_val` laws) or an
+    argument cell of the current frame (`hbp`); a `Ptr` source is rejected by the verifier (`Verify.srcOk`) -/
+theorem loadOperand_val {cl : CodeLaws ops} {s s1 : St H} {v : VCell} (h : loadOperand ops s = .ok (v, s1))
+    (hacc : cl.Val s.acc) (hsrc : srcOk (ops.fetch s.heap s.ipL s.ipO) = true)
+    (hbp : ∀ off, ops.fetch s.heap s.ipL s.ipO = some (.bpOffset off) → 0 ≤ (s.bp : Int) + off →
+      ((s.bp : Int) + off).toNat < s.stack.cells.length → cl.Val (s.stack.cellAt ((s.bp : Int) + off).toNat)) :
+    cl.Val v := by
+  unfold loadOperand at h
+  simp only [Bind.bind] at h
+  cases hr : readOperand ops s with
+  | ok r =>
+    obtain ⟨opnd, s2⟩ := r
+    rw [hr] at h
+    simp only at h
+    obtain ⟨hf, e⟩ := readOperand_ok hr
+    subst e
+    rw [hf] at hsrc
+    split at h
+    · cases h; exact hacc
+    · simp [srcOk] at hsrc
+    · rename_i off
+      split at h
+      · rename_i h0
+        obtain ⟨w, hg, h⟩ := bind_inv' h
+        cases h
+        obtain ⟨e1, e2⟩ := get_ok hg
+        rw [e1]
+        exact hbp off hf h0 e2
+      · cases h
+    · rename_i n
+      have hv := cl.globGet_val s.heap n
+      split at h
+      · cases h
+      · cases h; exact hv
+    · rename_i n
+      cases hg : ops.envGet s.heap s.ep n with
+      | none => rw [hg] at h; cases h
+      | some w =>
+        rw [hg] at h
+        cases w with
+        | lexEnvPtr e k =>
+          simp only at h
+          cases hw : ops.envGet s.heap e k with
+          | none => rw [hw] at h; cases h
+          | some w2 =>
+            rw [hw] at h
+            cases h
+            exact cl.envGet_val2 hg hw
+        | _ =>
+          cases h
+          exact cl.envGet_val hg (by intro e' k' he; cases he)
+    · cases h
+  | err e => rw [hr] at h; cases h
+  | panic m => rw [hr] at h; cases h
 
 theorem getOffset_ok {st : Stack} {k : Nat} {v : VCell} (h : st.getOffset (-(k : Int)) = .ok v) :
     k ≤ st.sp ∧ v = st.cellAt (st.sp - k) := by
@@ -332,5 +458,67 @@ theorem stepRet_ok {s s' : St H} (h : stepRet s = .ok s') :
   cases h
   exact ⟨n, ep, l, o, bp', (get_ok g1).1.symm, (get_ok g2).1.symm, (get_ok g3).1.symm,
     (get_ok g4).1.symm, hu1, rfl⟩
+
+/-- ENTER compares the argument count with the formals of the callee in `acc` -/
+theorem stepEnter_lam {s s' : St H} (h : stepEnter ops s = .ok s') :
+    ∃ lam info, enterLam ops s.heap s.acc = some lam ∧ ops.lambdaInfo s.heap lam = some info ∧
+      s.stack.cellAt (s.stack.sp - 2) = .argc info.argc := by
+  have key : ∀ (lam : Nat) (cenv : Option Nat), enterLam ops s.heap s.acc = some lam →
+      (match ops.lambdaInfo s.heap lam with
+        | none => (Outcome.err Err.expectedType : Outcome (St H))
+        | some info => do
+          let a ← s.stack.getOffset (-2)
+          let n ← asArgc a
+          if n ≠ info.argc then Outcome.err Err.invalidNumArgs else do
+          let st := s.stack.push (.basePtr s.bp)
+          let bp ← usub st.sp 4 "enter: sp - 4"
+          let s := { s with stack := st, bp := bp }
+          match cenv with
+          | none => .ok s
+          | some env => do
+            let (h, e) ← ops.makeActivation s.heap lam env s.bp s.stack
+            .ok { s with heap := h, ep := e }) = .ok s' →
+      ∃ lam info, enterLam ops s.heap s.acc = some lam ∧ ops.lambdaInfo s.heap lam = some info ∧
+        s.stack.cellAt (s.stack.sp - 2) = .argc info.argc := by
+    intro lam cenv hl h
+    cases hinfo : ops.lambdaInfo s.heap lam with
+    | none => rw [hinfo] at h; cases h
+    | some info =>
+      rw [hinfo] at h
+      dsimp only at h
+      obtain ⟨a, hg, h⟩ := bind_inv h
+      obtain ⟨n, ha, h⟩ := bind_inv h
+      have e2 : (-2 : Int) = -((2 : Nat) : Int) := by omega
+      rw [e2] at hg
+      obtain ⟨_, hg'⟩ := getOffset_ok hg
+      have ea := asArgc_ok ha
+      split at h
+      · cases h
+      · rename_i hn
+        have : n = info.argc := by simpa using hn
+        subst this
+        exact ⟨lam, info, hl, hinfo, by rw [← hg', ea]⟩
+  unfold stepEnter at h
+  cases hc : ops.callee s.heap s.acc with
+  | closure l e =>
+    rw [hc] at h
+    exact key l (some e) (by unfold enterLam; rw [hc]) h
+  | lambda =>
+    rw [hc] at h
+    cases hp : asPtr s.acc with
+    | ok p =>
+      rw [hp] at h
+      exact key p none (by unfold enterLam; rw [hc, asPtr_ok hp]) h
+    | err e => rw [hp] at h; cases h
+    | panic m => rw [hp] at h; cases h
+  | builtin id => rw [hc] at h; cases h
+  | continuation c => rw [hc] at h; cases h
+  | other => rw [hc] at h; cases h
+
+theorem stepEnter_acc {s s' : St H} (h : stepEnter ops s = .ok s') : s'.acc = s.acc := by
+  unfold stepEnter at h
+  simp only [Bind.bind] at h
+  repeat' split at h
+  all_goals first | (cases h; done) | (cases h; rfl)
 
 end Marwood.Vm
